@@ -300,7 +300,8 @@ Record suite_inv := {
   si_accepted : list string;
   si_has_help_instr : bool;
   si_help_struct : list string;
-  si_help_keys : list string
+  si_help_keys : list string;
+  si_modes : list mode_obs                  (* the names written with an instruction description in front *)
 }.
 
 Record entity_inv := {
